@@ -337,60 +337,88 @@ _abs_cache = {}
 _var_count = [0]
 
 
-def _var_for(kind, term):
+def _var_for(kind, term, sort=None):
     """one abstraction variable per distinct (live) term"""
     key = (kind, term.get_id())
     hit = _len_vars.get(key)
     if hit is not None and hit[0].eq(term):
         return hit[1]
     _var_count[0] += 1
-    v = z3.Int(f"{kind}#{_var_count[0]}")
+    v = z3.Const(f"{kind}#{_var_count[0]}", sort if sort is not None else z3.IntSort())
     _len_vars[key] = (term, v)
     return v
 
 
+_BOOL_OPS = None
+_ARITH_OPS = None
+
+
 def _abstract(t):
-    """replace every Length(<seq term>) by an integer variable >= 0 (one per distinct argument); returns
-    (term, side conditions) or None when sequence-sorted material remains elsewhere in the term"""
+    """Boolean + linear-integer skeleton of a formula (an over-approximation: every model of t is a model of the
+    skeleton).  Kept: Boolean structure, integer comparisons, linear arithmetic, ite.  Replaced by one variable per
+    distinct (live) term: Length(s), non-linear products, integer-valued functions of non-integer arguments
+    (os2ip(b), dl(P)), and every other atom (uninterpreted predicates, equalities between sequences / points).
+    Returns (skeleton, side conditions)."""
+    global _BOOL_OPS, _ARITH_OPS
+    if _BOOL_OPS is None:
+        _BOOL_OPS = {z3.Z3_OP_AND, z3.Z3_OP_OR, z3.Z3_OP_NOT, z3.Z3_OP_IMPLIES, z3.Z3_OP_XOR, z3.Z3_OP_TRUE, z3.Z3_OP_FALSE,
+                     z3.Z3_OP_ITE, z3.Z3_OP_IFF}
+        _ARITH_OPS = {z3.Z3_OP_ADD, z3.Z3_OP_SUB, z3.Z3_OP_UMINUS, z3.Z3_OP_LE, z3.Z3_OP_LT, z3.Z3_OP_GE, z3.Z3_OP_GT,
+                      z3.Z3_OP_ITE, z3.Z3_OP_ANUM}
     k = t.get_id()
     hit = _abs_cache.get(k)
-    if hit is not None and hit[0].eq(t):       # ids are only unique among live terms: keep the term alive
+    if hit is not None and hit[0].eq(t):
         return hit[1]
-    subs = []
     side = []
-    seen = set()
-    stack = [t]
-    ok = True
-    while stack:
-        x = stack.pop()
-        i = x.get_id()
-        if i in seen:
-            continue
-        seen.add(i)
-        if z3.is_quantifier(x):
-            ok = False
-            break
-        if z3.is_app(x):
-            if x.decl().kind() == z3.Z3_OP_SEQ_LENGTH:
-                a = x.arg(0)
-                v = _var_for("len", a)
-                subs.append((x, v))
-                side.append(v >= 0)
-                continue
-            if x.decl().kind() == z3.Z3_OP_MUL and sum(1 for c in x.children() if not z3.is_int_value(c)) >= 2:
-                # a non-linear product: one variable per distinct monomial (keeps the abstraction linear)
-                subs.append((x, _var_for("nl", x)))
-                continue
-            if z3.is_int(x) and x.num_args() and any(z3.is_seq(c) for c in x.children()):
-                # an integer-valued function of sequences (os2ip(...)): one variable per distinct term
-                v = _var_for("ia", x)
-                subs.append((x, v))
-                continue
-            if z3.is_seq(x) or (x.num_args() and any(z3.is_seq(c) for c in x.children())):
-                ok = False
-                break
-            stack.extend(x.children())
-    res = (z3.substitute(t, *subs) if subs else t, side) if ok else None
+
+    def rec(x):
+        kk = x.get_id()
+        h = _abs_cache.get(("r", kk))
+        if h is not None and h[0].eq(x):
+            side.extend(h[2])
+            return h[1]
+        loc = []
+        r = rec1(x, loc)
+        _abs_cache[("r", kk)] = (x, r, loc)
+        side.extend(loc)
+        return r
+
+    def rec1(x, loc):
+        if z3.is_quantifier(x) or not z3.is_app(x):
+            return _var_for("q", x, z3.BoolSort()) if z3.is_bool(x) else _var_for("q", x, x.sort())
+        kind = x.decl().kind()
+        ch = x.children()
+        if z3.is_bool(x):
+            if kind in _BOOL_OPS or (kind in (z3.Z3_OP_EQ, z3.Z3_OP_DISTINCT) and all(z3.is_bool(c) for c in ch)):
+                return x.decl()(*[rec(c) for c in ch]) if ch else x
+            if kind in (z3.Z3_OP_EQ, z3.Z3_OP_DISTINCT, z3.Z3_OP_LE, z3.Z3_OP_LT, z3.Z3_OP_GE, z3.Z3_OP_GT) \
+                    and all(z3.is_int(c) for c in ch):
+                return x.decl()(*[rec(c) for c in ch])
+            if kind == z3.Z3_OP_UNINTERPRETED and all(z3.is_int(c) or z3.is_bool(c) for c in ch):
+                return x.decl()(*[rec(c) for c in ch]) if ch else x      # predicate over integers: keep (congruence)
+            return _var_for("b", x, z3.BoolSort())
+        if z3.is_int(x):
+            if z3.is_int_value(x) or (kind == z3.Z3_OP_UNINTERPRETED and not ch):
+                return x
+            if kind in (z3.Z3_OP_ADD, z3.Z3_OP_SUB, z3.Z3_OP_UMINUS):
+                return x.decl()(*[rec(c) for c in ch])
+            if kind == z3.Z3_OP_ITE:
+                return z3.If(rec(ch[0]), rec(ch[1]), rec(ch[2]))
+            if kind == z3.Z3_OP_MUL:
+                if sum(1 for c in ch if not z3.is_int_value(c)) >= 2:
+                    return _var_for("nl", x)
+                return x.decl()(*[rec(c) for c in ch])
+            if kind in (z3.Z3_OP_MOD, z3.Z3_OP_IDIV, z3.Z3_OP_REM) and z3.is_int_value(ch[1]):
+                return x.decl()(rec(ch[0]), ch[1])
+            if kind == z3.Z3_OP_UNINTERPRETED and ch and all(z3.is_int(c) or z3.is_bool(c) for c in ch):
+                return x.decl()(*[rec(c) for c in ch])                    # integer function of integers: keep
+            v = _var_for("len" if kind == z3.Z3_OP_SEQ_LENGTH else "ia", x)
+            if kind == z3.Z3_OP_SEQ_LENGTH:
+                loc.append(v >= 0)
+            return v
+        return _var_for("o", x, x.sort())
+
+    res = (rec(t), side)
     _abs_cache[k] = (t, res)
     return res
 
@@ -401,14 +429,11 @@ def light(assumptions, goal):
     about sequence values are dropped, so the query is pure integer arithmetic.  (z3's sequence solver
     needs a minute to build a *model* with Length(s) > 255, and branch decisions are sat-flavoured.)"""
     g = _abstract(goal)
-    if g is None:
-        return assumptions, goal
     out = []
     for a in assumptions:
         r = _abstract(a)
-        if r is not None:
-            out.append(r[0])
-            out.extend(r[1])
+        out.append(r[0])
+        out.extend(r[1])
     out.extend(g[1])
     return out, g[0]
 
